@@ -55,6 +55,12 @@ reg('accm_try_read_symreader', ['C02', 'C05'], 'Accm::try_read against any confo
 reg('accm_try_read_values', ['C05'], 'Accm::try_read values / write, 10..12 octets', fn='message::avp::types::accm::Accm::try_read', secondary=['C03', 'C06', 'C10'])
 
 
+reg('std_be_bytes', ['C18'], 'prelude wrappers vf_to_be_bytes / vf_uN_from_be_bytes: std to_be_bytes/from_be_bytes == enc/be arithmetic, all u16/u32/u64',
+    fn='vf_prelude::{VfBe2,VfBe4,VfBe8,vf_u16_from_be_bytes,vf_u32_from_be_bytes,vf_u64_from_be_bytes}', secondary=['C06', 'C05'])
+reg('std_slice_to_array', ['C18'], 'prelude wrapper vf_try_into: slice->array conversion succeeds iff lengths agree and copies the octets',
+    fn='vf_prelude::VfTryInto', complete=False, bound='slice <= 8 octets, N in {2,4}', secondary=['C05', 'C12'])
+
+
 def harnesses_for(props, tier):
     out = []
     for h in H.values():
@@ -125,7 +131,8 @@ def run(hs, repo, workdir, tier):
         env['CARGO_TARGET_DIR'] = os.path.join(scratch, 'target')
         names = [h['name'] for h in hs]
         # one cargo-kani invocation compiles once; harnesses then run in parallel
-        cmd = ['cargo', 'kani', '-j', '12', '--output-format', 'terse']
+        cmd = ['cargo', 'kani', '-j', '12', '--output-format', 'terse', '-Z', 'unstable-options',
+               '--harness-timeout', '600s' if tier == 'thorough' else '240s']
         for n in names:
             cmd += ['--harness', n]
         timeout = 3000 if tier == 'thorough' else 1500
